@@ -75,7 +75,19 @@ static void ds_op(const struct cmb_dataset *d, int op, int64_t a, int64_t b)
         case 1: (void)cmb_dataset_median(d); break;
         case 2: cmb_dataset_fivenum_print(d, devnull, (a & 1) != 0); break;
         case 3: {
-            const unsigned bins = 1 + (unsigned)((uint64_t)a % 30);
+            /* now and then more bins than a 16-bit index can number (the parameter is an unsigned) */
+            const unsigned bins = ((uint64_t)a % 97 == 96) ? 70000u + (unsigned)((uint64_t)b % 1000) : 1 + (unsigned)((uint64_t)a % 30);
+            if (bins > 65535u) {
+                /* bins are never narrower than 1, so that many bins need data that spread that far */
+                PROBE("util.histogram_more_than_65535_bins");
+                struct cmb_dataset *c = cmb_dataset_create(); cmb_dataset_initialize(c);
+                for (int i = 0; i < 12; i++) (void)cmb_dataset_add(c, (double)bins * (double)i / 11.0 - ((i & 1) ? 0.5 : 0.0));
+                (void)cmb_dataset_add(c, (double)bins + 10.0); (void)cmb_dataset_add(c, -3.0);
+                if (b % 3 == 0) cmb_dataset_histogram_print(c, devnull, bins, 0.0, 0.0);
+                else cmb_dataset_histogram_print(c, devnull, bins, 0.0, (double)bins);
+                cmb_dataset_destroy(c);
+                break;
+            }
             if (b % 3 == 0) cmb_dataset_histogram_print(d, devnull, bins, 0.0, 0.0);     /* autoscale */
             else cmb_dataset_histogram_print(d, devnull, bins, -2.0, 2.0 + (double)(b % 7));
             break; }
@@ -105,7 +117,17 @@ static void ts_op(int op, int64_t a, int64_t b)
         case 2: (void)cmb_timeseries_median(ts); break;
         case 3: cmb_timeseries_fivenum_print(ts, devnull, (a & 1) != 0); break;
         case 4: {
-            const uint16_t bins = (uint16_t)(1 + (uint64_t)a % 30);
+            const uint16_t bins = ((uint64_t)a % 97 == 96) ? (uint16_t)65535u : (uint16_t)(1 + (uint64_t)a % 30);   /* the largest number the parameter can carry: two more bins are added for the tails */
+            if (bins == 65535u) {
+                PROBE("util.histogram_65535_bins");
+                struct cmb_timeseries *c = cmb_timeseries_create(); cmb_timeseries_initialize(c);
+                for (int i = 0; i < 12; i++) (void)cmb_timeseries_add(c, 65535.0 * (double)i / 11.0 - ((i & 1) ? 0.5 : 0.0), (double)i);
+                (void)cmb_timeseries_add(c, 65600.0, 12.0); (void)cmb_timeseries_add(c, -3.0, 13.0); (void)cmb_timeseries_finalize(c, 14.0);
+                if (b % 3 == 0) cmb_timeseries_histogram_print(c, devnull, bins, 0.0, 0.0);
+                else cmb_timeseries_histogram_print(c, devnull, bins, 0.0, 65535.0);
+                cmb_timeseries_destroy(c);
+                break;
+            }
             if (b % 3 == 0) cmb_timeseries_histogram_print(ts, devnull, bins, 0.0, 0.0);
             else cmb_timeseries_histogram_print(ts, devnull, bins, -2.0, 2.0 + (double)(b % 7));
             break; }
@@ -234,7 +256,11 @@ static void empty_ops(int which, int64_t a)
         case 5: { struct cmb_wtdsummary w; cmb_wtdsummary_initialize(&w); (void)cmb_timeseries_summarize(t, &w); cmb_wtdsummary_print(&w, devnull, true);
                   cmb_wtdsummary_reset(&w); (void)cmb_wtdsummary_add(&w, 2.0, 1.0); cmb_wtdsummary_reset(&w); cmb_wtdsummary_terminate(&w); break; }
         case 6: cmb_timeseries_print(t, devnull); cmb_timeseries_histogram_print(t, devnull, 1 + (unsigned)(a % 20), 0.0, (a & 2) ? 0.0 : 5.0); break;
-        case 7: cmb_timeseries_sort_x(t); cmb_timeseries_sort_t(t); (void)cmb_timeseries_finalize(t, 2.0 + (double)(a % 3)); (void)cmb_timeseries_count(t); break;   /* the closing call on a history that never recorded */   /* weighted median / five-number summary of nothing: the library states that precondition as a release assert */
+        case 7: cmb_timeseries_sort_x(t); cmb_timeseries_sort_t(t); (void)cmb_timeseries_finalize(t, 2.0 + (double)(a % 3)); (void)cmb_timeseries_count(t);   /* the closing call on a history that never recorded */
+                /* the weighted median / five-number summary of nothing, e.g. of the history of an object that never recorded: the header
+                 * states no precondition, and the unweighted versions warn and carry on */
+                if (a & 4) { cmb_timeseries_reset(t); (void)cmb_timeseries_median(t); cmb_timeseries_fivenum_print(t, devnull, (a & 1) != 0); PROBE("util.weighted_median_of_nothing"); }
+                break;
         case 8: if (ds) { (void)cmb_dataset_copy(ds, e); (void)cmb_dataset_count(ds); (void)cmb_dataset_add(ds, 4.0); (void)cmb_dataset_median(ds); }          /* an empty source into a target with data */
                 else { build_ds(9, 0); struct cmb_dataset *c = cmb_dataset_create(); cmb_dataset_initialize(c); (void)cmb_dataset_add(c, 1.0); (void)cmb_dataset_copy(c, ds); (void)cmb_dataset_median(c); cmb_dataset_destroy(c); }
                 break;
